@@ -1056,6 +1056,16 @@ def check_redundant(ctx):
                         eq[-1].expr.left, eq[-1].expr.comparators[0])) and \
                     any('SYM_e' in U(x) for x in (
                         eq[-1].expr.left, eq[-1].expr.comparators[0]))
+                if not ok and any(
+                        isinstance(x, ast.Call) and isinstance(
+                            x.func, ast.Name) and x.func.id.startswith(
+                                'SYM_f') for c in conds
+                        if isinstance(c.expr, ast.AST)
+                        for x in ast.walk(c.expr)):
+                    raise AnalysisError(
+                        'list-redundant selects what it reports through a '
+                        'local function object (%s): what that predicate '
+                        'compares is not read' % conds[-1].text()[:60])
                 if not ok:
                     bad = bad or p
     ctx.ob('C18.REDUNDANT', bad is None and n > 0, W, f.qual,
